@@ -425,7 +425,7 @@ func run(t *testing.T, tape *simrt.Tape) *hx.Outcome {
 	wrongDigest := digest.FromString("not the toc " + fmt.Sprint(tape.Seed))
 	verifiedOK, readsOK, readsErr, mountsFailed := 0, 0, 0, 0
 	tampered := false
-	res := simrt.Run(t, tape, simrt.Options{MaxSteps: 400000, HangAfter: 3 * time.Hour}, func(s *simrt.Sim, mt *simrt.Task) {
+	res := simrt.Run(t, tape, simrt.Options{MaxSteps: 4000000, HangAfter: 3 * time.Hour}, func(s *simrt.Sim, mt *simrt.Task) {
 		s.Procs = 1 + s.Tape.Draw("cfg", 3)
 		s.UseDisk(simrt.DiskCfg{Yield: true})
 		reg := simreg.New(s, simreg.Config{Base: simreg.Personality(s.Tape.Draw("cfg", int(simreg.NumPersonalities))), ReadYield: s.Tape.Draw("cfg", 2) == 1})
